@@ -124,6 +124,17 @@ pub fn drive(ctx: &mut Ctx) {
 		like!(ctx, "&[(zst,)]/LinkedList<zst>", &[(EV1,)] => LinkedList<EV1>, LinkedList<EV1>, |b| leak_vec(b.iter().map(|_| (EV1::V1,)).collect()));
 		like!(ctx, "&[zst]/Vec<zst>", &[EV1] => Vec<EV1>, Vec<EV1>, |b| leak_vec(b.clone()));
 		like!(ctx, "&[(u8,zst)]/BTreeMap<u8,zst>", &[(u8, EV1)] => BTreeMap<u8, EV1>, BTreeMap<u8, EV1>, |b| leak_vec(b.iter().map(|(k, _)| (*k, EV1::V1)).collect()));
+		// transparent structs whose fields carry attributes or zero-sized companions: the wrappers decode in place
+		like!(ctx, "transp(compact+marker)/Box", STranspCM => Box<STranspCM>, Box<STranspCM>, |b| *b);
+		like!(ctx, "[&transp(compact+marker);3]/[..;3]", [&STranspCM; 3] => [STranspCM; 3], [STranspCM; 3], |b| [&b[0], &b[1], &b[2]]);
+		like!(ctx, "transp(compact+marker)/Rc", (u8, STranspCM) => (u8, Rc<STranspCM>), (u8, Rc<STranspCM>), |b| (b.0, *b.1));
+		like!(ctx, "transp(marker+encoded_as)/Arc", STranspEA => Arc<STranspEA>, Arc<STranspEA>, |b| *b);
+		like!(ctx, "[Box<transp(encoded_as)>;2]/[..;2]", [Box<STranspEA>; 2] => [STranspEA; 2], [STranspEA; 2], |b| [Box::new(b[0]), Box::new(b[1])]);
+		like!(ctx, "transp(compact)/Box", STranspC => Box<STranspC>, Box<STranspC>, |b| *b);
+		like!(ctx, "transp(skip)/Box", (STranspSk, u8) => (Box<STranspSk>, u8), (Box<STranspSk>, u8), |b| ((*b.0).clone(), b.1));
+		like!(ctx, "transp(zst variant)/Box", STranspZ => Box<STranspZ>, Box<STranspZ>, |b| (*b).clone());
+		like!(ctx, "transp/Box", STransp => Box<STransp>, Box<STransp>, |b| (*b).clone());
+		like!(ctx, "[&transp;3]/[transp;3]", [&STransp; 3] => [STransp; 3], [STransp; 3], |b| [&b[0], &b[1], &b[2]]);
 		like!(ctx, "&derive/derive", &EPlain => EPlain, EPlain, |b| &b);
 		like!(ctx, "Vec<&derive>/Vec<derive>", Vec<&SCompact> => Vec<SCompact>, Vec<SCompact>, |b| b.iter().collect());
 	}
